@@ -1,0 +1,11 @@
+//go:build verif
+
+package note
+
+// Ghost lemma functions for govc: never called, compiled only with -tags verif.
+
+// lemmaC15RoundTrip: the printed notation of every valid interval reads back as the same interval.
+func lemmaC15RoundTrip(value uint, name DegreeName) (Degree, error) {
+	d := Degree{Value: value, Name: name}
+	return ParseDegree(d.String())
+}
